@@ -3,6 +3,7 @@ method resolution, attribute typing from constructor assignments, call
 resolution with a receiver class.
 """
 import ast
+import os
 
 from .loader import AnalysisError, load_modules
 
@@ -118,6 +119,11 @@ class Index:
             self._mro(c)
         self._attr_types = {}
         self.receiver_table = {}   # (class fq, attr) -> [class fq...] for containers; filled by rules
+        self.inlined = []
+        self.inlined_sites = []
+        if not os.environ.get("HIOLINT_NO_INLINE"):
+            from . import inline
+            self.inlined = inline.apply(self)    # expand call edges that are new relative to the frozen baseline call graph
 
     # ---------------------------------------------------------------- build
     def _index_module(self, m):
